@@ -336,10 +336,51 @@ def continuous_injections(sc, history, names, cover, outcomes):
                         w = fresh()
                         if w is None or len(w.endpoints[name].controller.ike_sas) != n_sas:
                             return out
+        # ... and after the whole alphabet has been thrown at it, one after the other with nothing authentic in between, the
+        # session goes on exactly as it does from the same state without any of it: what is in flight is delivered, every
+        # established IKE_SA checks on its peer and is answered
+        if not out:
+            base = build(sc)
+            P.replay_events(base, [e for e in history])
+            pics = []
+            for x in (base, w):
+                _finish(x)
+                pics.append(_brief(x))
+            cover['continuous:finish-compared'] += 1
+            if pics[0] != pics[1]:
+                diff = [n for n in pics[0] if pics[0][n] != pics[1][n]]
+                out.append(dict(monitor='M-quiet', signature='session-differs-after-the-injections:loop-never-left',
+                                message='after all injections of this state (none of them changed anything that could be seen) the '
+                                        'session continues differently from the same state without them, at %s: without %r, with %r' % (
+                                            diff, [pics[0][n] for n in diff], [pics[1][n] for n in diff]),
+                                history=list(history), detail=dict(inject=dict(ep=names[0], sa_index=0, label='<all>', data=b'',
+                                                                               continuous=True))))
     finally:
         if w is not None:
             w.close()
     return out
+
+
+def _finish(w):
+    guard = 0
+    while w.net and guard < 60:
+        guard += 1
+        w.step(('deliver', w.net[0].id))
+    for name in sorted(w.endpoints):
+        ep = w.endpoints[name]
+        for i, sa in enumerate(list(ep.controller.ike_sas)):
+            if sa.state == State.ESTABLISHED and P.live(ep):
+                w.step(('due', name, i, 'dpd'))
+                guard = 0
+                while w.net and guard < 20:
+                    guard += 1
+                    w.step(('deliver', w.net[0].id))
+
+
+def _brief(w):
+    # (SPIs chosen after the injections depend on how much randomness the daemon has drawn in between: not compared)
+    return {n: (ep.alive, [(s.is_initiator, s.state.name, len(s.child_sas), s.my_msg_id, s.peer_msg_id)
+                           for s in ep.controller.ike_sas], len(ep.kernel.sad)) for n, ep in w.endpoints.items()}
 
 
 def inject_state(job):
